@@ -5,8 +5,6 @@
 
 namespace OP2Utility
 {
-#pragma pack(push, 1) // Make sure structures are byte aligned
-
 	// Facilitates finding the source BMP file (well00XX.bmp) for a tile set.
 	// Tile set names must be exactly 8 chars long not including file extension.
 	struct TilesetSource
@@ -31,6 +29,4 @@ namespace OP2Utility
 			return (numTiles == 0) || tilesetFilename.empty();
 		}
 	};
-
-#pragma pack(pop)
 }
